@@ -69,7 +69,7 @@ CONSTANTS Enforce,      \* property ids whose clauses are enforced
 VARIABLES ns, live, owned
 vars == <<ns, live, owned>>
 
-G(p, c) == p \notin Enforce \/ c
+G(p, c) == IF p \in Enforce THEN c ELSE TRUE
 (* a violated clause set blocks the step and says which clauses failed *)
 Judge(V) == IF V = {} THEN TRUE ELSE PrintT(<<"C13BAD", V>>) /\ FALSE
 
